@@ -228,7 +228,8 @@ class Schema(dict, metaclass=LogicalMeta):
             # check if any of those dependencies is not in __dict__, and directly return if found one
             for dep in field.dependencies:
                 dep_field = self.__parser__.get_field(dep)
-                if not dep_field or dep_field.attname not in self.__dict__:
+                if not dep_field or (dep_field.name not in self and dep_field.attname not in self.__dict__):
+                    # (an ordinary dependency is a key, a no_output one lives in __dict__ only)
                     return
 
         try:
